@@ -124,7 +124,11 @@ def oracle(tier, rng, seeds):
                 if len(L) != len(set(L)) or set(L) != set(all_ids(b)) or len(L) != drv.ci.get_num_children(-1, b):
                     fails.append(Failure(f'cell_to_children(0,{b}) is not the level-{b} id set', {'op': 'cell', 'id': 0}))
             continue
-        n += check_cell(drv, c, fails, deep=3 if tier == 'quick' else 4)
+        # most cells: up to 3 levels in one call (deeper by composition); every 12th cell with a non-trivial position: 4 and 5 levels in one call
+        dp = 3 if tier == 'quick' else 4
+        if distinct % 12 == 5 and ref_res(c) >= 1 and ref_res(c) + 5 <= MAXV:
+            dp = 5
+        n += check_cell(drv, c, fails, deep=dp)
         distinct += 1
         if len(fails) > 200:
             break
